@@ -112,6 +112,7 @@ func cmdRun(args []string) {
 	steps := fs.Int("steps", 200000, "instruction budget per path")
 	maxPaths := fs.Int("max", 0, "max paths")
 	workers := fs.Int("j", runtime.NumCPU(), "workers")
+	capS := fs.Int("cap", 86400, "wall-clock cap for the exploration in seconds")
 	timeout := fs.Int("timeout", 10000, "solver timeout ms")
 	verbose := fs.Bool("v", false, "print candidates")
 	prof := fs.String("cpuprofile", "", "write cpu profile")
@@ -143,7 +144,7 @@ func cmdRun(args []string) {
 		}
 	}
 	run.Trace = *trace
-	explore(pg, run, engines, 1, time.Now().Add(24*time.Hour))
+	explore(pg, run, engines, 1, time.Now().Add(time.Duration(*capS)*time.Second))
 	printRun(run, engines, *verbose)
 }
 
